@@ -1,45 +1,80 @@
 #!/usr/bin/env python3
-"""crosscheck.py <qlog-dir> — replays every per-worker SMT-LIB log through z3 4.8.12, z3 5.1.0 (z3-new) and
-cvc5 and compares the sequences of check-sat answers.  Exit 0 = all agree (unknown/timeouts are reported, not counted as disagreement)."""
+"""crosscheck.py <qlog-dir> — replays the per-worker SMT-LIB logs through z3 4.8.12, z3 5.1.0 (z3-new) and
+cvc5 and compares the sequences of check-sat answers.  Exit 0 = all agree (unknown/timeouts are reported, not counted as disagreement).
+Logs above VSYM_CROSS_MAX_MB (default 8) are skipped and counted; files and solvers run side by side."""
 import subprocess, sys, glob, os
+from concurrent.futures import ThreadPoolExecutor
 d = sys.argv[1]
-limit = int(os.environ.get("VSYM_CROSS_MAX_MB", "40")) * (1 << 20)
+limit = int(os.environ.get("VSYM_CROSS_MAX_MB", "8")) * (1 << 20)
 tot = {"files": 0, "answers": 0, "disagree": 0, "unknown": 0, "skipped": 0}
-for f in sorted(glob.glob(d + "/*.smt2")):
-    if os.path.getsize(f) > limit:
-        tot["skipped"] += 1
-        continue
+out_lines = []
+
+
+def run(job):
+    name, cmd, inp = job
+    try:
+        r = subprocess.run(cmd, input=inp, capture_output=True, text=True, timeout=1200)
+        seq = [l.strip() for l in r.stdout.split("\n") if l.strip() in ("sat", "unsat", "unknown", "timeout")]
+        errs = [l for l in r.stdout.split("\n") if l.startswith("(error")]
+        return name, seq, errs, None
+    except Exception as e:
+        return name, None, [], str(e)
+
+
+def one(f):
+    res = {"answers": 0, "disagree": 0, "unknown": 0, "lines": []}
     txt = open(f).read()
     lines = txt.split("\n")
     cvc = "(set-logic ALL)\n(set-option :produce-models true)\n" + "\n".join(l for l in lines if not l.startswith("(set-option") and not l.startswith("(get-value"))
     z = "\n".join(l for l in lines if not l.startswith("(get-value"))
+    jobs = (("z3", ["z3", "-in"], z), ("z3-new", ["z3-new", "-in"], z), ("cvc5", ["cvc5", "--incremental", "--lang=smt2", "--tlimit-per=20000"], cvc))
     seqs = {}
-    for name, cmd, inp in (("z3", ["z3", "-in"], z), ("z3-new", ["z3-new", "-in"], z), ("cvc5", ["cvc5", "--incremental", "--lang=smt2", "--tlimit-per=60000"], cvc)):
-        try:
-            r = subprocess.run(cmd, input=inp, capture_output=True, text=True, timeout=3600)
-            seqs[name] = [l.strip() for l in r.stdout.split("\n") if l.strip() in ("sat", "unsat", "unknown", "timeout")]
-            errs = [l for l in r.stdout.split("\n") if l.startswith("(error")]
+    with ThreadPoolExecutor(max_workers=3) as ex:
+        for name, seq, errs, exc in ex.map(run, jobs):
+            seqs[name] = seq
+            if exc:
+                res["lines"].append("CROSS %s: %s failed: %s" % (os.path.basename(f), name, exc))
             if errs:
-                print("CROSS %s: %s reported %d error lines, first: %s" % (os.path.basename(f), name, len(errs), errs[0][:160]))
-                tot["unknown"] += 1
-        except Exception as e:
-            print("CROSS %s: %s failed: %s" % (os.path.basename(f), name, e)); seqs[name] = None
-    tot["files"] += 1
+                res["lines"].append("CROSS %s: %s reported %d error lines, first: %s" % (os.path.basename(f), name, len(errs), errs[0][:160]))
+                res["unknown"] += 1
     base = seqs.get("z3") or []
-    tot["answers"] += len(base)
+    res["answers"] = len(base)
     for other in ("z3-new", "cvc5"):
         s = seqs.get(other)
         if s is None:
             continue
+        if len(s) < len(base) and all(a == b or "unknown" in (a, b) or "timeout" in (a, b) for a, b in zip(base, s)):
+            # the other solver gave up part-way (time limit, resource limit): what it did answer agrees
+            res["lines"].append("CROSS %s: %s stopped after %d of %d answers, all of them in agreement" % (os.path.basename(f), other, len(s), len(base)))
+            res["unknown"] += len(base) - len(s)
+            continue
         if len(s) != len(base):
-            print("CROSS %s: %s gave %d answers, z3 gave %d" % (os.path.basename(f), other, len(s), len(base))); tot["disagree"] += 1
+            res["lines"].append("CROSS %s: %s gave %d answers, z3 gave %d" % (os.path.basename(f), other, len(s), len(base)))
+            res["disagree"] += 1
             continue
         for i, (a, b) in enumerate(zip(base, s)):
             if a != b:
                 if "unknown" in (a, b) or "timeout" in (a, b):
-                    tot["unknown"] += 1
+                    res["unknown"] += 1
                 else:
-                    tot["disagree"] += 1
-                    print("CROSS DISAGREEMENT %s query #%d: z3=%s %s=%s" % (os.path.basename(f), i, a, other, b))
+                    res["disagree"] += 1
+                    res["lines"].append("CROSS DISAGREEMENT %s query #%d: z3=%s %s=%s" % (os.path.basename(f), i, a, other, b))
+    return res
+
+
+files = []
+for f in sorted(glob.glob(d + "/*.smt2")):
+    if os.path.getsize(f) > limit:
+        tot["skipped"] += 1
+    else:
+        files.append(f)
+with ThreadPoolExecutor(max_workers=int(os.environ.get("VSYM_CROSS_JOBS", "5"))) as ex:
+    for r in ex.map(one, files):
+        tot["files"] += 1
+        tot["answers"] += r["answers"]
+        tot["disagree"] += r["disagree"]
+        tot["unknown"] += r["unknown"]
+        for l in r["lines"]:
+            print(l)
 print("CROSS files=%(files)d answers=%(answers)d disagreements=%(disagree)d unknown-or-error=%(unknown)d skipped-large=%(skipped)d" % tot)
 sys.exit(1 if tot["disagree"] else 0)
